@@ -61,9 +61,16 @@ def _rewrite(fn, namespace):
 
 
 # ---------------------------------------------------------------- data shims ---
+ORDERED = [False]      # the categorical dtype of the column under test is ordered (its order = the category list)
+
+
 class _Cat:
     def __init__(self, series):
         self.s = series
+
+    @property
+    def ordered(self):
+        return ORDERED[0]
 
     def remove_unused_categories(self):
         s = self.s
@@ -819,17 +826,25 @@ class _CatSeries(SymSeries):
     def unique(self):
         return _OrderedUnique(self.cats_, self.present_)
 
+    def max(self):
+        # pandas contract: extremes of a categorical follow the category order; unordered categoricals refuse
+        if not ORDERED[0]:
+            raise TypeError("Categorical is not ordered for operation max")
+        return _OrderedUnique(self.cats_, self.present_).max()
+
+    def min(self):
+        if not ORDERED[0]:
+            raise TypeError("Categorical is not ordered for operation min")
+        return _OrderedUnique(self.cats_, self.present_).min()
+
     @property
     def cat(self):
         return _CatAcc(self)
 
 
-def h_cat_stats(c0: int, c1: int, c2: int, p0: bool, p1: bool, p2: bool, n: int) -> bool:
-    """
-    pre: c0 != c1 and c1 != c2 and c0 != c2 and 1 <= n < LIM
-    pre: p0 or p1 or p2
-    post: __return__
-    """
+def _h_cat_stats(c0: int, c1: int, c2: int, p0: bool, p1: bool, p2: bool, n: int) -> bool:
+    # (body of the harness below; kept free of a contract so that other harnesses can call it: CrossHair
+    # enforces the contract of a contracted callee and drops the path when it fails)
     # a categorical column with categories [c0, c1, c2] (any order) of which the flagged ones occur: the chunk's
     # statistics must be the smallest / largest *value* that occurs
     data = _CatSeries([c0, c1, c2], [p0, p1, p2], n, n)
@@ -842,6 +857,15 @@ def h_cat_stats(c0: int, c1: int, c2: int, p0: bool, p1: bool, p2: bool, n: int)
     st = chunk.meta_data.statistics
     present = [c for c, p in zip([c0, c1, c2], [p0, p1, p2]) if p]
     return st.max == ("plain-stat", max(present)) and st.min == ("plain-stat", min(present))
+
+
+def h_cat_stats(c0: int, c1: int, c2: int, p0: bool, p1: bool, p2: bool, n: int) -> bool:
+    """
+    pre: c0 != c1 and c1 != c2 and c0 != c2 and 1 <= n < LIM
+    pre: p0 or p1 or p2
+    post: __return__
+    """
+    return _h_cat_stats(c0, c1, c2, p0, p1, p2, n)
 
 
 def replay_h_cat_stats(c0, c1, c2, p0, p1, p2, n):
@@ -922,6 +946,50 @@ def replay_h_cat_dictionary(c0, c1, c2, p0, p1, p2, n, stats):
         shutil.rmtree(d, ignore_errors=True)
 
 
+def h_cat_stats_ordered(c0: int, c1: int, c2: int, p0: bool, p1: bool, p2: bool, n: int) -> bool:
+    """
+    pre: c0 != c1 and c1 != c2 and c0 != c2 and 1 <= n < LIM
+    pre: p0 or p1 or p2
+    post: __return__
+    """
+    # the same for an ORDERED categorical (its own order is the category list, e.g. small < medium < large): readers
+    # compare the stored bounds in the order of the physical type, so they must be the extremes by value
+    ORDERED[0] = True
+    try:
+        return _h_cat_stats(c0, c1, c2, p0, p1, p2, n)
+    finally:
+        ORDERED[0] = False
+
+
+def replay_h_cat_stats_ordered(c0, c1, c2, p0, p1, p2, n):
+    import os, shutil, tempfile
+    import pandas as pd
+    import fastparquet
+    cats = [c0, c1, c2]
+    present = [c for c, p in zip(cats, [p0, p1, p2]) if p]
+    vals = [present[i % len(present)] for i in range(6)]
+    df = pd.DataFrame({"x": pd.Categorical(vals, categories=cats, ordered=True)})
+    d = tempfile.mkdtemp(prefix="c04-")
+    try:
+        fn = os.path.join(d, "t.parq")
+        fastparquet.write(fn, df, stats=True)
+        pf = fastparquet.ParquetFile(fn)
+        st = pf.statistics
+        mx, mn = st["max"]["x"][0], st["min"]["x"][0]
+        if mx != max(present) or mn != min(present):
+            return True, "ordered categorical with categories %r holding %r: statistics say min=%r max=%r" % (
+                cats, sorted(set(vals)), mn, mx)
+        target = max(present)
+        kept = len(pf.to_pandas(filters=[("x", "==", target)], row_filter=True))
+        want = sum(1 for v in vals if v == target)
+        if kept != want:
+            return True, "ordered categorical with categories %r: filter x == %r keeps %d of %d matching rows" % (
+                cats, target, kept, want)
+        return False, "statistics exact"
+    finally:
+        shutil.rmtree(d, ignore_errors=True)
+
+
 def h_cat_stats_rest(c0: int, c1: int, c2: int, p0: bool, p1: bool, p2: bool, n: int) -> bool:
     """
     pre: c0 < c1 < c2 and 1 <= n < LIM
@@ -929,7 +997,7 @@ def h_cat_stats_rest(c0: int, c1: int, c2: int, p0: bool, p1: bool, p2: bool, n:
     post: __return__
     """
     # categories listed in increasing order (outside the category-order finding)
-    return h_cat_stats(c0, c1, c2, p0, p1, p2, n)
+    return _h_cat_stats(c0, c1, c2, p0, p1, p2, n)
 
 
 def replay_h_cat_stats_rest(c0, c1, c2, p0, p1, p2, n):
@@ -984,6 +1052,10 @@ class _CatIndex(_ValueIndex):
 class _CodedAcc:
     def __init__(self, s):
         self.s = s
+
+    @property
+    def ordered(self):
+        return ORDERED[0]
 
     @property
     def codes(self):
